@@ -15,6 +15,7 @@ import (
 
 	chart "helm.sh/helm/v4/pkg/chart/v2"
 	release "helm.sh/helm/v4/pkg/release/v1"
+	"helm.sh/helm/v4/pkg/storage"
 	"helm.sh/helm/v4/pkg/storage/driver"
 	helmtime "helm.sh/helm/v4/pkg/time"
 )
@@ -205,10 +206,18 @@ func genStorageOps(r *Rng, n int, names []string, allowCorrupt bool, vers ...int
 		switch k := r.Intn(100); {
 		case k < 30:
 			ops = append(ops, map[string]any{"kind": "create", "key": key, "rel": rel})
+			if r.Chance(20) {
+				// the same create again, byte for byte (a retried request): the key exists now
+				ops = append(ops, map[string]any{"kind": "create", "key": key, "rel": rel})
+			}
 		case k < 45:
 			ops = append(ops, map[string]any{"kind": "get", "key": key})
 		case k < 60:
 			ops = append(ops, map[string]any{"kind": "update", "key": key, "rel": rel})
+			if r.Chance(15) {
+				// create of exactly what has just been stored by the update
+				ops = append(ops, map[string]any{"kind": "create", "key": key, "rel": rel})
+			}
 		case k < 72:
 			ops = append(ops, map[string]any{"kind": "delete", "key": key})
 		case k < 82:
@@ -307,6 +316,21 @@ func storageCase(m *Model, rep *Report, ops []map[string]any, stream string, see
 				}
 				rep.Issue(Issue{Kind: "monitor", Fingerprint: fp, What: fmt.Sprintf("%s driver panicked on %v", bk.name, op["kind"]), Case: map[string]any{"ops": ops[:step+1]}, Seed: seed, Index: idx})
 				rep.Issue(Issue{Kind: "monitor", Fingerprint: strings.Replace(fp, "C10:", "C20:", 1), What: fmt.Sprintf("%s driver panicked on %v", bk.name, op["kind"]), Case: map[string]any{"ops": ops[:step+1]}, Seed: seed, Index: idx})
+			}
+			// what the actions call: Storage.Last / History / Deployed of the name just touched return a value or an
+			// error, whatever the stored records look like (undecodable bodies included)
+			if stream == "corrupt" {
+				if k, ok := op["key"].(string); ok {
+					name := strings.TrimPrefix(k, "sh.helm.release.v1.")
+					if j := strings.LastIndex(name, ".v"); j > 0 {
+						name = name[:j]
+					}
+					st := storage.Init(bk.d)
+					if p := safely(func() { st.Last(name); st.History(name); st.Deployed(name); st.DeployedAll(name) }); p != "" {
+						rep.Issue(Issue{Kind: "monitor", Fingerprint: "C20:panic:storage-level:" + bk.name, What: "Storage.Last / History / Deployed of " + name + " panicked: " + trunc(p, 200), Case: map[string]any{"ops": ops[:step+1]}, Seed: seed, Index: idx})
+					}
+					rep.H("storage-level-probe")
+				}
 			}
 			if !jsonEqual(got, exp) {
 				rep.Issue(Issue{Kind: "disagreement", Fingerprint: "C10:model:" + bk.name, What: fmt.Sprintf("step %d (%v): %s driver differs from its model", step, op["kind"], bk.name), Case: map[string]any{"ops": ops[:step+1]}, Model: exp, Impl: got, Seed: seed, Index: idx})
